@@ -462,7 +462,44 @@ def discards(tier):
     return out
 
 
-FAMILIES = {"discards": discards, "fleet_dense": fleet_dense, "nonblocking_fleet": nonblocking_fleet, "draining": draining, "splitters": splitters, "lines": core_lines, "congestion": congestion, "diamonds": diamonds, "fans": fans, "combiners": combiners,
+def long_runs(tier):
+    """the same shapes with many items and a long horizon, explored with at most one deviation: behaviour that only shows after
+    dozens of items (growing lists, wrapped cursors, counters) on and next to the default schedule"""
+    out = []
+    n, T = (30, 70) if tier == "quick" else (60, 140)
+    c = line("bufF", "buf0", n=n, until=T); out.append(c)
+    c = line("fleet", "buf0", n=n, until=T, wc=2); out.append(c)
+    c = line("buf0", "bufF", n=n, until=T, sb=False, mb=False, pd=[2, 3]); out.append(c)
+    c = line("cconvA", "buf0", n=n, until=T); out.append(c)
+    c = diamond(in_pol="ROUND_ROBIN", out_pol="ROUND_ROBIN", n=n // 2, until=T, sinks=2); out.append(c)
+    c = diamond(n=n // 2, until=T, wc=2, slow_sink=True); out.append(c)
+    c = fan(3, "ROUND_ROBIN", "machine", True, n=n, until=T); out.append(c)
+    c = fan(3, "FIRST_AVAILABLE", "source", False, n=n, until=T); out.append(c)
+    c = fan_in(3, "ROUND_ROBIN", n=n // 3, until=T); out.append(c)
+    c = comb_split((1, 2), n_pal=n // 2, n_item=n, until=T, sinks=2, out_pol="ROUND_ROBIN"); out.append(c)
+    c = comb_series(n_pal=n // 2, until=T)
+    c["nodes"][1] = src("SA", n=n // 2, iat=[1, 0.5]); c["nodes"][2] = src("SB", n=n, iat=[1, 0.5])
+    out.append(c)
+    c = pallet_split(in_pol="ROUND_ROBIN", n_in=2, n_out=2, slow=True, n=n // 3, until=T, out_pol="ROUND_ROBIN"); out.append(c)
+    for c in discards(tier):
+        # starved lines: dozens of drops by one node
+        if c["tag"] in ("discards(source,FIRST_AVAILABLE)", "discards(source,ROUND_ROBIN)", "discards(machine,FIRST_AVAILABLE)", "discards(machine,0)"):
+            c["nodes"][0] = src("S", n=n, blocking=c["nodes"][0]["blocking"], iat=[1, 0.5], pol=c["nodes"][0]["out_pol"])
+            c["until"] = T
+            out.append(c)
+    c = comb_fan("FIRST_AVAILABLE", True); c["nodes"][0] = src("SP", n=n // 2, flow="pallet", iat=[1, 0.5]); c["nodes"][1] = src("SI", n=n // 2, iat=[1, 0.5])
+    c["until"] = T; out.append(c)
+    c = {"nodes": [src("S", n=n, iat=[1, 0.5]), sink("K")], "edges": [edge("fleet", "F", "S", "K", cap=4, delay=2.5, transit=0.5)], "until": T,
+         "family": "long_runs", "tag": "fleet_to_sink(c4,d2.5,t0.5)"}
+    out.append(c)
+    for c in out:
+        c["tag"] += "+long%d" % n
+        c["bound"] = 1
+        c["family"] = "long_runs"
+    return out
+
+
+FAMILIES = {"long_runs": long_runs, "discards": discards, "fleet_dense": fleet_dense, "nonblocking_fleet": nonblocking_fleet, "draining": draining, "splitters": splitters, "lines": core_lines, "congestion": congestion, "diamonds": diamonds, "fans": fans, "combiners": combiners,
             "conveyors": conveyor_lines}
 
 
